@@ -303,6 +303,40 @@ Section CGProofs.
   Theorem cg_iter_fixed_point fuel st : << sr st, sr st >> = 0 -> iter fuel st = (Some (sx st), []).
   Proof. intros Hz. destruct fuel; cbn [cg_iter]; [reflexivity|]. now rewrite step_stop. Qed.
 
+  (* ---------------------------------------------------------------- (2') the repaired code never divides by zero, whatever the operator:
+     beta = rr / rr_previous with rr_previous <> 0 (a pass with rr = 0 returns), and a vanishing <p, H p> returns the current solution *)
+  Definition Pinv (st : state F) : Prop := match sprev st with Some rrp => rrp <> 0 | None => True end.
+
+  Lemma step_never_fails st : Pinv st -> step st <> Fail /\ forall st', step st = Next st' -> Pinv st'.
+  Proof.
+    unfold Pinv, cg_step. intros HP.
+    destruct (feqb << sr st, sr st >> 0) eqn:E0; [split; [discriminate|intros; discriminate]|]. cbn [orb].
+    assert (Hrr : << sr st, sr st >> <> 0) by (intros Hc; apply feqb_spec in Hc; congruence).
+    destruct (negb (feqb tol 0) && fltb _ _); [split; [discriminate|intros; discriminate]|].
+    destruct (sprev st) as [rrp|].
+    - rewrite (sdiv_nonzero _ _ HP). destruct (sdiv' _ _); (split; [discriminate|intros st' H; try discriminate]).
+      injection H as <-. cbn [sprev]. exact Hrr.
+    - destruct (sdiv' _ _); (split; [discriminate|intros st' H; try discriminate]).
+      injection H as <-. cbn [sprev]. exact Hrr.
+  Qed.
+
+  Lemma iter_never_fails fuel : forall st, Pinv st -> fst (iter fuel st) <> None.
+  Proof.
+    induction fuel as [|fuel IH]; intros st HP; cbn [cg_iter]; [discriminate|].
+    destruct (step_never_fails st HP) as [Hnf Hnext].
+    destruct (step st) as [| |st'] eqn:Es; [discriminate|contradiction|].
+    specialize (IH st' (Hnext st' eq_refl)). destruct (iter fuel st') as [res h]. exact IH.
+  Qed.
+
+  Theorem cg_never_diverges b x0 m trace : cgm b x0 m <> Diverged trace.
+  Proof.
+    assert (Hf : fst (run b x0 m) <> None).
+    { unfold cg_run. destruct (feqb _ _); [discriminate|]. apply iter_never_fails. exact I. }
+    unfold cg. destruct x0 as [x|].
+    - destruct (Nat.eqb _ _); [|discriminate]. destruct (run b (Some x) m) as [[y|] h]; [discriminate|cbn in Hf; congruence].
+    - destruct (run b None m) as [[y|] h]; [discriminate|cbn in Hf; congruence].
+  Qed.
+
   (* ---------------------------------------------------------------- (3) no division by zero for definite H *)
   Variable n : nat.
   Hypothesis Hop_len : forall u, length (Hop u) = n.
@@ -350,6 +384,41 @@ Section CGProofs.
     destruct (step_definite st HD) as [Hnf Hnext].
     destruct (step st) as [| |st'] eqn:Es; [discriminate|contradiction|].
     specialize (IH st' (Hnext st' eq_refl)). destruct (iter fuel st') as [res h]. exact IH.
+  Qed.
+
+  (* for a definite operator a pass can only return early for the documented reasons (zero residual, tolerance): the zero-curvature exit
+     of the repaired code is never taken *)
+  Lemma step_stop_definite st : Dinv st -> step st = Stop ->
+    feqb << sr st, sr st >> 0 || (negb (feqb tol 0) && fltb << sr st, sr st >> (tol * tol)) = true.
+  Proof.
+    intros (Hlen & Hlenp & Hinv). unfold cg_step. destruct (feqb << sr st, sr st >> 0) eqn:E0; [reflexivity|]. cbn [orb].
+    assert (Hrr : << sr st, sr st >> <> 0) by (intros Hc; apply feqb_spec in Hc; congruence).
+    destruct (negb (feqb tol 0) && fltb _ _); [reflexivity|].
+    destruct (sprev st) as [rrp|].
+    + destruct Hinv as [Hrrp Horth]. rewrite (sdiv_nonzero _ _ Hrrp).
+      rewrite sdiv_nonzero; [discriminate|].
+      apply (Hop_definite _ (sr st)); [rewrite length_vadd, length_vscale; lia | exact Hlen |].
+      rewrite dot_vadd_l, dot_vscale_l, (dot_comm (sp st)), Horth.
+      match goal with |- ?e <> 0 => assert (E : e = << sr st, sr st >>) by (field; exact Hrrp) end.
+      rewrite E. exact Hrr.
+    + rewrite Hinv. rewrite sdiv_nonzero; [discriminate|].
+      apply (Hop_definite _ (sr st) Hlen Hlen). exact Hrr.
+  Qed.
+
+  Lemma init_Dinv b x0 : length b = n -> Dinv (init b x0).
+  Proof.
+    intros Hb. unfold Dinv, cg_init. cbn [sr sp sprev].
+    assert (Hl : length (b -v Hop match x0 with Some x => x | None => b end) = n) by (rewrite length_vsub, Hop_len, Hb; lia).
+    repeat split; exact Hl.
+  Qed.
+
+  Lemma iter_Dinv fuel : forall st res h, Dinv st -> iter fuel st = (res, h) -> Forall Dinv h.
+  Proof.
+    induction fuel as [|fuel IH]; intros st res h HD Hi; cbn [cg_iter] in Hi; [injection Hi as _ <-; constructor|].
+    destruct (step_definite st HD) as [_ Hnext].
+    destruct (step st) as [| |st'] eqn:Es; try (injection Hi as _ <-; constructor).
+    destruct (iter fuel st') as [r' h'] eqn:Ei. injection Hi as _ <-.
+    constructor; [apply Hnext; reflexivity|]. eapply IH; [apply Hnext; reflexivity|exact Ei].
   Qed.
 
   Theorem cg_run_finite b x0 m : length b = n -> fst (run b x0 m) <> None.
@@ -1174,13 +1243,10 @@ Section CGProofs.
   Qed.
 
   (* ---- the run: with tolerance 0 and a budget of at least n the final residual vanishes *)
-  Lemma step_stop_tol0 st : tol = 0 -> step st = Stop -> << sr st, sr st >> = 0.
+  Lemma step_stop_tol0 st : Dinv st -> tol = 0 -> step st = Stop -> << sr st, sr st >> = 0.
   Proof.
-    intros Ht. unfold cg_step. destruct (feqb << sr st, sr st >> 0) eqn:E; [intros _; apply feqb_spec; exact E|].
-    rewrite (proj2 (feqb_spec tol 0) Ht). cbn [negb andb orb].
-    destruct (sprev st) as [rrp|].
-    - destruct (sdiv' _ rrp); [|discriminate]. destruct (sdiv' _ _); discriminate.
-    - destruct (sdiv' _ _); discriminate.
+    intros HD Ht Hs. pose proof (step_stop_definite st HD Hs) as H.
+    rewrite (proj2 (feqb_spec tol 0) Ht) in H. cbn [negb andb] in H. rewrite orb_false_r in H. apply feqb_spec. exact H.
   Qed.
 
   Lemma iter_end fuel : forall st y h, iter fuel st = (Some y, h) -> length h = fuel \/ step (last h st) = Stop.
@@ -1231,6 +1297,9 @@ Section CGProofs.
     unfold cg_run in Hrun. destruct (feqb << sr (init b x0), sr (init b x0) >> 0) eqn:E0.
     - injection Hrun as <- <-. apply feqb_spec in E0. exact E0.
     - pose proof (iter_result m _ _ _ Hrun) as Hy. rewrite Hy. unfold Rinv in HR. rewrite <- HR.
+      assert (HDl : Dinv (last h (init b x0))).
+      { pose proof (iter_Dinv m _ _ _ (init_Dinv b x0 Hb) Hrun) as HF. destruct h as [|s0 h'] using rev_ind; [apply init_Dinv; exact Hb|].
+        rewrite last_last. rewrite Forall_forall in HF. apply HF. apply in_or_app. right. left. reflexivity. }
       destruct (iter_end m _ _ _ Hrun) as [Hfull|Hstop]; [|apply step_stop_tol0; assumption].
       destruct (feqb << sr (last h (init b x0)), sr (last h (init b x0)) >> 0) eqn:El; [apply feqb_spec; exact El|exfalso].
       assert (Hlast : << sr (last h (init b x0)), sr (last h (init b x0)) >> <> 0) by (intros Hc; apply feqb_spec in Hc; congruence).
